@@ -143,17 +143,18 @@ def record(jobs=6):
     json.dump(out, open(EXPECT, 'w'), indent=1, sort_keys=True)
 
 
-def benign(jobs=6, only=None):
+def benign(jobs=6, only=None, directory=None):
     """behaviour-preserving edits (seeded/benign/*.diff): no check may report a violation on any of them"""
     from concurrent.futures import ProcessPoolExecutor
     os.environ['VF_SHOW_MACHINERY'] = '1'
-    files = sorted(f for f in os.listdir(os.path.join(SEEDED, 'benign')) if f.endswith('.diff'))
+    bdir = directory or os.path.join(SEEDED, 'benign')
+    files = sorted(f for f in os.listdir(bdir) if f.endswith('.diff'))
     if only:
         files = [f for f in files if any(o in f for o in only)]
     pids = sorted(props.PROPS)
     bad = 0
     with ProcessPoolExecutor(max_workers=jobs) as ex:
-        futs = {f: ex.submit(run_seed, os.path.join(SEEDED, 'benign', f), pids, '/repo') for f in files}
+        futs = {f: ex.submit(run_seed, os.path.join(bdir, f), pids, '/repo') for f in files}
         for f in files:
             res = futs[f].result()
             if isinstance(res, str):
@@ -169,6 +170,8 @@ def benign(jobs=6, only=None):
 if __name__ == '__main__':
     if len(sys.argv) > 1 and sys.argv[1] == 'benign':
         sys.exit(1 if benign(6, sys.argv[2:]) else 0)
+    elif len(sys.argv) > 2 and sys.argv[1] == 'benign-dir':
+        sys.exit(1 if benign(int(sys.argv[3]) if len(sys.argv) > 3 else 5, None, os.path.abspath(sys.argv[2])) else 0)
     elif len(sys.argv) > 1 and sys.argv[1] == 'record':
         record(int(sys.argv[2]) if len(sys.argv) > 2 else 6)
     elif len(sys.argv) > 2 and sys.argv[1] == 'seed':
